@@ -263,6 +263,14 @@ impl<'a, M: Model> Shared<'a, M> {
             self.viol_total.fetch_add(1, Ordering::Relaxed);
             let mut keys = self.viol_keys.lock().unwrap();
             if keys.len() < self.p.max_violations && keys.insert(format!("{}|{}", v.prop, v.key)) {
+                // spill to disk at once: a later crash of this process must not lose the verdict
+                if let Some(path) = &self.p.emergency_out {
+                    use std::io::Write;
+                    if let Ok(mut f) = std::fs::OpenOptions::new().create(true).append(true).open(format!("{}.viol.jsonl", path)) {
+                        let j = serde_json::json!({"property": format!("C{:02}", v.prop), "clause": v.clause, "key": v.key, "detail": v.detail, "hist_hex": journal::to_hex(h.bytes()), "history": self.model.describe(h), "depth": h.len, "deviations": h.devs_used()});
+                        let _ = writeln!(f, "{}", j);
+                    }
+                }
                 self.viols.lock().unwrap().push(FoundViolation {
                     v: v.clone(),
                     hist_hex: journal::to_hex(h.bytes()),
@@ -284,7 +292,12 @@ impl<'a, M: Model> Shared<'a, M> {
             }
             return;
         }
-        if bad || !out.violations.is_empty() {
+        // A state with a violation is not expanded when the violation is one this check reports, or when
+        // it concerns memory safety (its future is not meaningful and may crash). Violations of *other*,
+        // purely book-keeping properties (reset, limit, accounting, iteration, capacity) do not stop the
+        // search: their downstream effects may be exactly what this check is looking for.
+        let blocking = out.violations.iter().any(|v| self.p.prop_mask & (1 << v.prop) != 0 || !matches!(v.prop, 6 | 7 | 8 | 10 | 18));
+        if bad || blocking {
             // reached and judged, not expanded: still a state
             let sh = (out.key as usize) % self.last_keys.len();
             self.last_keys[sh].lock().unwrap().insert(out.key);
@@ -421,7 +434,7 @@ pub fn explore<M: Model>(model: &M, p: &Params) -> Report {
                             sh.handle(&h, &o, order, false, true);
                             continue;
                         }
-                        if !out0.violations.is_empty() {
+                        if out0.violations.iter().any(|v| sh.p.prop_mask & (1 << v.prop) != 0 || !matches!(v.prop, 6 | 7 | 8 | 10 | 18)) {
                             continue;
                         }
                         if !last_level {
